@@ -590,7 +590,20 @@ class SymList(list):
         return SymList(list.__add__(self, o))
 
 
+class SymLenList(list):
+    """list whose reported length is a (possibly symbolic / large) value: only len() of it is ever used"""
+    _symx_len = None
+
+
+def sym_len(x):
+    n = getattr(x, "_symx_len", None)
+    if n is not None:
+        return n
+    return builtins.len(x)
+
+
 BUILTINS = {
+    "len": sym_len,
     "dict": SymDict, "set": SymSet, "frozenset": SymSet, "sorted": sym_sorted, "int": sym_int, "float": sym_float,
     "min": sym_min, "max": sym_max, "round": sym_round, "sum": sym_sum, "ord": sym_ord, "chr": sym_chr,
     "_symx_Dict": SymDict, "_symx_Set": SymSet, "_symx_List": SymList,
